@@ -55,6 +55,10 @@ M = [
  ("c07_apply_true_without_code", "src/request.rs", [("                return true;\n            }\n        }\n        false", "                return true;\n            }\n            return true;\n        }\n        false")], ["C07"]),
  ("c08_clone_after_serve", "src/block_handler/mod.rs", [("                    let cached_response = response.message.clone();\n                    let has_more_chunks = Self::maybe_serve_cached_response(\n                        request,\n                        request_block2,\n                        &cached_response,\n                    )?;\n                    if has_more_chunks {\n                        state.cached_response = Some(cached_response);",
                                                             "                    let cached_response = response.message.clone();\n                    let has_more_chunks = Self::maybe_serve_cached_response(\n                        request,\n                        request_block2,\n                        &cached_response,\n                    )?;\n                    if has_more_chunks {\n                        state.cached_response = request.response.as_ref().map(|r| r.message.clone());")], ["C08"]),
+ ("c08_skip_plus1", "src/block_handler/mod.rs", [("            .skip(usize::from(request_block2.num));", "            .skip(usize::from(request_block2.num) + 1);")], ["C08"]),
+ ("c08_more_from_len", "src/block_handler/mod.rs", [("        let has_more_chunks = chunks.next().is_some();", "        let has_more_chunks =\n            cached_payload_chunk.len() == request_block_size;")], ["C08"]),
+ ("c08_chunk_min64", "src/block_handler/mod.rs", [("            .chunks(request_block_size)\n", "            .chunks(request_block_size.max(64))\n")], ["C08"]),
+ ("c08_block2_num_plus1", "src/block_handler/mod.rs", [("            more: has_more_chunks,\n            ..request_block2\n", "            more: has_more_chunks,\n            num: request_block2.num.wrapping_add(0) | 0,\n            size_exponent: request_block2.size_exponent.min(6),\n")], ["C08"]),
  ("c08_release_inverted", "src/block_handler/mod.rs", [("                if !has_more_chunks {\n                    state.cached_response = None", "                if has_more_chunks {\n                    state.cached_response = None")], ["C08"]),
  ("c08_skip_high_options", "src/block_handler/mod.rs", [("        for (&option, value) in src.options() {\n", "        for (&option, value) in src.options() {\n            if option > 20 {\n                continue;\n            }\n")], ["C08"]),
  ("c09_final_clones_buffer", "src/block_handler/mod.rs", [("                    let mut cached_payload =\n                        mem::take(&mut state.cached_request_payload).unwrap();", "                    let mut cached_payload =\n                        state.cached_request_payload.clone().unwrap();")], ["C09"]),
